@@ -21,7 +21,7 @@ Derived leaves
                       norm_entry_* (`theta.flatten() / np.sqrt(…)`), norm_sq_entry (`theta ** 2`)
   fit_optimize_positive  positive_param (`theta ** 2`, both in `_loss_opt` and in the result)
   _loss               loss_value (`-mean similarity + sum(theta*theta) * ridge_weight`)
-  _nn_least_squares   nnls_tol, nnls_iter_bound, nnls_enter (outer loop test `> tol`), nnls_inner_test
+  _nn_least_squares   nnls_tol, nnls_tol_iter (round 5: threshold re-set per outer iteration), nnls_iter_bound, nnls_enter (outer loop test `> tol`), nnls_inner_test
                       (must be a `while`), nnls_step_len, nnls_step_free (`alphas[s_p >= 0] = inf`),
                       nnls_step_update
   ModelInterpolate    interp_clamp (`np.maximum(theta, 0)` in predict_rdm), interp_default (`theta[0] =
@@ -551,10 +551,40 @@ def _derive():
     emit('loss_value', ['score', 'sumsq', 'ridge_weight'], loss_value)
 
     # ---- _nn_least_squares
+    def tol_assigns():
+        """round 5: the threshold is set before the loop from `scale = np.max(np.abs(w))` (the size of
+        A^T y) and re-set at the END of every outer iteration (last statement of the loop body, after the
+        gradient is recomputed) to also cover the rounding level of the products `np.abs(ATA) @ x`"""
+        fn = ffit('_nn_least_squares')
+        sc = _one(_assigns(fn, 'scale'), 'assignment to scale')
+        if ast.unparse(sc.value) != 'np.max(np.abs(w))':
+            raise Underivable(f'scale is `{ast.unparse(sc.value)}`')
+        hits = _assigns(fn, 'tol')
+        if len(hits) != 2:
+            raise Underivable(f'expected two assignments to tol (before the loop, at the end of an outer '
+                              f'iteration), found {len(hits)}')
+        lp = _one([n for n in fn.body if isinstance(n, ast.While)], 'outer while loop')
+        first, second = hits
+        if first not in fn.body or not (sc.lineno < first.lineno < lp.lineno):
+            raise Underivable('the first assignment to tol is not between `scale = ...` and the outer loop')
+        if lp.body[-1] is not second:
+            raise Underivable('the second assignment to tol is not the last statement of the outer loop')
+        ws = [n for n in lp.body if isinstance(n, (ast.If, ast.Assign)) and
+              any(isinstance(a, ast.Assign) and ast.unparse(a.targets[0]) == 'w' for a in ast.walk(n))]
+        if not ws or ws[-1].lineno > second.lineno:
+            raise Underivable('the gradient w is not recomputed before the threshold is re-set')
+        return first, second
+
     def nnls_tol():
-        a = _one(_assigns(ffit('_nn_least_squares'), 'tol'), 'assignment to tol')
-        return _sub(a.value, {'np.finfo(float).eps': 'eps', 'np.max(np.abs(w))': 'maxabs'})
+        first, _ = tol_assigns()
+        return _sub(first.value, {'np.finfo(float).eps': 'eps', 'scale': 'maxabs'})
     emit('nnls_tol', ['eps', 'maxabs'], nnls_tol)
+
+    def nnls_tol_iter():
+        _, second = tol_assigns()
+        return _sub(second.value, {'np.finfo(float).eps': 'eps', 'scale': 'maxabs',
+                                   'np.max(np.abs(ATA) @ x)': 'prod'})
+    emit('nnls_tol_iter', ['eps', 'maxabs', 'prod'], nnls_tol_iter)
 
     def outer_loop():
         fn = ffit('_nn_least_squares')
@@ -770,6 +800,7 @@ LEAVES = [
     _leaf('positiveParam', 'positive_param', {'t': 'A'}),
     _leaf('lossValue', 'loss_value', {'score': 'A', 'sumsq': 'A', 'ridge_weight': 'A'}),
     _leaf('nnlsTol', 'nnls_tol', {'eps': 'A', 'maxabs': 'A'}),
+    _leaf('nnlsTolIter', 'nnls_tol_iter', {'eps': 'A', 'maxabs': 'A', 'prod': 'A'}),
     _leaf('nnlsIterBound', 'nnls_iter_bound', {'k': 'Nat'}, 'Nat'),
     _leaf('nnlsEnter', 'nnls_enter', {'wmax': 'A', 'tol': 'A'}, 'Nat'),
     _leaf('nnlsInnerTest', 'nnls_inner_test', {'s': 'A'}, 'Nat'),
